@@ -8,8 +8,10 @@ area = "event"
 driver = "drv_event"
 cxx = False
 fixed_lines = 1
-rule = ("scripts = 'e new fb|nofb' followed by dispatcher ops (set/cset/clear/clearall/emit id|msg|none/hash/"
-        "reserve/fini; the last operand of emit/hash is what the invoked handler returns, suffix z = it also "
+rule = ("scripts = 'e new fb|nofb|builtin' followed by dispatcher ops (set/cset/clear/clearall/emit id|msg|none/hash/"
+        "reserve/fini/drop (release the table through the array interface)/tcopy r (copy-construct the element of "
+        "registration r through the content traits); second part: the C++ class mpt::dispatch (xe new/set/clear/get/"
+        "setdef/seterr/reserve/emit/hash/del); the last operand of emit/hash is what the invoked handler returns, suffix z = it also "
         "clears the event id); stream 1 enumerates every history of length <= 4 (quick: 3 over the full alphabet, "
         "4 over the reduced one) over ids {0,1,2,djb2('a')} x handler results {0,1,2,3,-1,1z,3z}; stream 2 = "
         "boundary histories (ids 2^64-1/2^63/127/128/255/256, every reserve width, table growth at the 3rd/9th/"
@@ -21,18 +23,18 @@ assumptions = [
     "malloc never fails in the harness runs; the dispatcher has no fallback reply context (_ctx = NULL)",
     "messages are one contiguous part (fragmented messages belong to C17)",
     "for separators that are not graphic characters (white-space splitting with quotes) the spec accepts any non-empty prefix of the payload as the command text; the model mirrors mpt_memtok and is compared with the code",
-    "the fallback is the harness handler (registration 0) or none; the library's built-in unknownEvent fallback is replaced right after mpt_dispatch_init",
+    "the fallback is the harness handler (registration 0), none, or the library's built-in unknownEvent (start mode builtin; its answers are part of the spec vocabulary)",
     "a reserved element is activated by the caller (handler + argument set) before anything else happens",
     "mpt_hash is the default djb2 variant (no _mpt_hash_set call)",
 ]
 trusted = ["hand-written model MptModel/Impl/Dispatch.lean tied to mptcore/event/*.c, misc/hash_djb2.c by harness/drv_event.c",
-           "mpt++/event.cpp (C++ wrappers) is outside the model"]
+           "mpt++/event.cpp is exercised as a second driver part against the same model (compiled into the driver translation unit with -fno-sanitize=vptr: the command buffers are C objects with hand-made vtables)"]
 
 M64 = (1 << 64) - 1
 
 
 def corpus(chk):
-    return gen.corpus(id)
+    return [(n, s) for n, s in gen.corpus(id) if s and s[0].startswith("e ")]
 
 
 def djb2(bs):
@@ -51,7 +53,7 @@ def _alphabet_full():
     ops = []
     for i in (0, 1, 2):
         ops += ["e set %d" % i, "e cset %d" % i, "e clear %d" % i]
-    ops += ["e set %d" % HA, "e clear %d" % HA, "e clearall", "e fini", "e reserve 1", "e reserve 0"]
+    ops += ["e set %d" % HA, "e clear %d" % HA, "e clearall", "e fini", "e reserve 1", "e reserve 0", "e drop", "e tcopy 1", "e tcopy 2"]
     for r in RES_FULL:
         for i in (0, 1, 2):
             ops.append("e emit id %d %s" % (i, r))
@@ -65,7 +67,7 @@ def _alphabet_full():
 
 
 def _alphabet_small():
-    return ["e set 1", "e set 2", "e cset 1", "e clear 1", "e clear 2", "e clearall", "e fini", "e reserve 1",
+    return ["e set 1", "e set 2", "e cset 1", "e clear 1", "e clear 2", "e clearall", "e fini", "e reserve 1", "e drop",
             "e emit id 1 0", "e emit id 1 1", "e emit id 1 3z", "e emit id 1 -1", "e emit id 2 1", "e emit id 0 1",
             "e emit msg 01 3", "e emit none 0", "e emit none 1", "e emit none 1z", "e set %d" % HA,
             "e hash 000061 2", "e hash 000061 -1"]
@@ -142,6 +144,16 @@ def _boundary():
     for seq in itertools.product(["e emit id 1 1", "e emit id 1 1z", "e emit id 2 3", "e emit id 7 1", "e emit id 0 1", "e emit none 1",
                                   "e emit none 1z", "e emit none 2", "e clear 1", "e emit msg 02 1"], repeat=3):
         out.append(("b:def:" + "/".join(s[2:] for s in seq), ["e new fb", "e set 1", "e set 2"] + list(seq) + ["e emit none 0", "e fini"]))
+    # built-in fallback: every event form, default bookkeeping around it
+    for seq in itertools.product(["e emit id 1 1", "e emit id 7 0", "e emit id 0 0", "e emit msg 00 0", "e emit msg 0700 0", "e emit msg 01 1", "e emit none 0",
+                                  "e hash 000061 1", "e hash 0000 1", "e clear 1", "e fini", "e set 7"], repeat=3):
+        out.append(("b:builtin:" + "/".join(s[2:] for s in seq), ["e new builtin", "e set 1"] + list(seq) + ["e emit none 0", "e fini"]))
+    # release through the content traits / copy through the traits, on tables made by set and by reserve, with holes
+    for pre in (["e set 1", "e set 2", "e set 3"], ["e reserve 1", "e reserve 1"], ["e set 5", "e reserve 2", "e clear 5", "e set 6"],
+                ["e reserve 1"] + ["e set %d" % (k + 10) for k in range(10)], ["e set 1", "e clearall", "e set 2"]):
+        for new in ("fb", "nofb", "builtin"):
+            out.append(("b:traits:%s:%d" % (new, len(pre)), ["e new " + new] + pre + ["e tcopy 1", "e tcopy 2", "e tcopy 3", "e tcopy 0", "e tcopy 99", "e drop",
+                                                                               "e emit id 1 0", "e tcopy 1", "e drop", "e reserve 1", "e set 1", "e drop", "e fini"]))
     # malformed op lines (both sides must answer bad-op)
     out.append(("b:badop", ["e new fb", "e set", "e set -1", "e set 01", "e set 18446744073709551616", "e emit id 1", "e emit id 1 +1",
                             "e emit id 1 -0", "e emit id 1 2147483648", "e emit id 1 -2147483649", "e emit msg 0g 1", "e emit msg 012 1",
@@ -159,12 +171,12 @@ def _random(tier, seed, scale):
         nid = r.choice([3, 3, 6, 24])
         ids = [r.choice([0, 1, 2, 3, 5, 127, 128, 255, 256, 1000, M64, M64 - 1, 1 << 63]) for _ in range(nid)]
         ids += [djb2(t) for t in texts[:2]]
-        lines = ["e new " + r.choice(["fb", "fb", "fb", "nofb"])]
+        lines = ["e new " + r.choice(["fb", "fb", "fb", "nofb", "builtin"])]
         if r.random() < 0.4:
             lines.append("e reserve %d" % r.choice([1, 1, 2, 8]))
         for _ in range(r.choice([6, 12, 25, 40])):
             kind = r.choice(["set", "set", "set", "cset", "clear", "clear", "emit", "emit", "emit", "msg", "none", "none", "hash", "reserve",
-                             "clearall", "fini", "bad"])
+                             "clearall", "fini", "bad", "drop", "tcopy"])
             res = r.choice(["0", "0", "1", "1", "2", "3", "-1", "-4", "1z", "3z", "4", "5", "%d" % r.randrange(-20, 70000)]
                            + (["%dz" % r.randrange(0, 8)] if r.random() < 0.2 else []))
             i = r.choice(ids)
@@ -187,6 +199,11 @@ def _random(tier, seed, scale):
             elif kind == "clearall":
                 if r.random() < 0.3:
                     lines.append("e clearall")
+            elif kind == "drop":
+                if r.random() < 0.3:
+                    lines.append("e drop")
+            elif kind == "tcopy":
+                lines.append("e tcopy %d" % r.randrange(0, 12))
             elif kind == "fini":
                 if r.random() < 0.3:
                     lines.append("e fini")
@@ -197,11 +214,72 @@ def _random(tier, seed, scale):
     return out
 
 
+class _XX:
+    """second part: the C++ class mpt::dispatch (mpt++/event.cpp) through harness/drvxx_event.cpp"""
+    id = "C11"
+    area = "event"
+    driver = "drvxx_event"
+    cxx = True
+    fixed_lines = 1
+    link_extra = ["-fno-sanitize=vptr"]
+
+    @staticmethod
+    def corpus(chk):
+        return [(n, s) for n, s in gen.corpus(id) if s and s[0].startswith("xe ")]
+
+    @staticmethod
+    def scripts(tier, seed, scale=1):
+        out = []
+        alpha = ["xe set 1", "xe set 2", "xe set 0", "xe clear 1", "xe clear 2", "xe get 1", "xe get 0", "xe setdef 1", "xe setdef 2", "xe setdef 0",
+                 "xe seterr", "xe reserve 1", "xe emit id 1 1", "xe emit id 1 0", "xe emit id 2 3z", "xe emit id 5 0", "xe emit msg 01 1",
+                 "xe emit none 0", "xe emit none 1", "xe hash 000061 2", "xe set %d" % HA, "xe del"]
+        for new in ("fb", "nofb", "builtin"):
+            for ln in range(1, (2 if tier == "quick" else 3) + 1):
+                for combo in itertools.product(alpha, repeat=ln):
+                    out.append(("xx:%s:%s" % (new, "/".join(c[3:] for c in combo)), ["xe new " + new] + list(combo) + ["xe del"]))
+        small = ["xe set 1", "xe set 2", "xe clear 1", "xe setdef 1", "xe setdef 2", "xe seterr", "xe reserve 1", "xe emit id 1 1", "xe emit id 3 1", "xe emit none 0"]
+        for combo in itertools.product(small, repeat=3 if tier == "quick" else 4):
+            out.append(("xxs:" + "/".join(c[3:] for c in combo), ["xe new builtin"] + list(combo) + ["xe emit none 0", "xe del"]))
+        out.append(("xx:badop", ["xe new fb", "xe set", "xe setdef", "xe setdef x", "xe seterr 1", "xe get", "xe frob", "xe del", "xe set 1", "xe del", "xe new maybe"]))
+        r = gen.rng(id, tier, seed, "xx-random")
+        for k in range((150 if tier == "quick" else 2500) * scale):
+            ids = [r.choice([0, 1, 2, 3, 7, 255, 256, M64, HA]) for _ in range(r.choice([3, 6]))]
+            lines = ["xe new " + r.choice(["fb", "nofb", "builtin", "builtin"])]
+            for _ in range(r.choice([6, 15, 30])):
+                kind = r.choice(["set", "set", "set", "clear", "get", "setdef", "setdef", "seterr", "reserve", "emit", "emit", "msg", "none", "hash"])
+                i = r.choice(ids)
+                res = r.choice(["0", "1", "2", "3", "-1", "1z", "3z", "5"])
+                if kind in ("set", "clear", "get", "setdef"):
+                    lines.append("xe %s %d" % (kind, i))
+                elif kind == "seterr":
+                    lines.append("xe seterr")
+                elif kind == "reserve":
+                    lines.append("xe reserve %d" % r.choice([0, 1, 2, 8]))
+                elif kind == "emit":
+                    lines.append("xe emit id %d %s" % (i, res))
+                elif kind == "msg":
+                    lines.append("xe emit msg %s %s" % (gen.hexs([r.choice([0, 1, 2, 7, 255])] * r.choice([0, 1, 2])), res))
+                elif kind == "none":
+                    lines.append("xe emit none %s" % res)
+                else:
+                    lines.append("xe hash %s %s" % (r.choice(["000061", "043a20613a62", "0000", "04206120"]), res))
+            lines.append("xe del")
+            out.append(("xxrnd:%d" % k, lines))
+        return out
+
+    nontrivial = staticmethod(lambda script, c_lines: nontrivial(script, c_lines))
+    tally = staticmethod(lambda chk, script, c_lines: tally(chk, script, c_lines))
+    finding_key = staticmethod(lambda script, res: finding_key(script, res))
+
+
+extra_parts = [_XX]
+
+
 def scripts(tier, seed, scale=1):
     out = []
     full = _alphabet_full()
     small = _alphabet_small()
-    for new in ("fb", "nofb"):
+    for new in ("fb", "nofb", "builtin"):
         top_full = 2 if tier == "quick" else 3
         for ln in range(1, top_full + 1):
             for combo in itertools.product(full, repeat=ln):
